@@ -18,11 +18,11 @@
   A record stands for the part `range.start .. range.end` of its source edge `from_id → to_id`;
   its event position is the point at `range.start`, `to` the point at `range.end`.
 
-  The model mirrors the code as it is, including its defect (see Props/C07.lean): the lower part
-  pushed by `splitAtVertex` keeps the stale `range.start` of its source record.  Two former
-  defects are repaired in /repo and the model mirrors the repaired code: `curveSegment` (fix
-  8662f1bc: parameters of the original curve for a curve flattened from its end) and
-  `mergeCoincident` (fix 456c058b: split parameter solved along the larger extent).
+  The model mirrors the code as it is.  Three former defects are repaired in /repo and the model
+  mirrors the repaired code: `curveSegment` (fix 8662f1bc: parameters of the original curve for a
+  curve flattened from its end), `mergeCoincident` (fix 456c058b: split parameter solved along the
+  larger extent) and `splitAtVertex` (fix 6bc52f98: the lower part of an edge split at a vertex
+  gets its own edge data starting at the split parameter).
 
   Mathlib-free.
 -/
@@ -200,12 +200,6 @@ def pendingOf (r : EdgeRec α) : Pending α := ⟨r.to, r, r.winding, r.t1⟩
 /-- `update_active_edges`: a pending edge becomes active, starting at the current position -/
 def activate (cur : P α) (p : Pending α) : Active α := ⟨cur, p.to, p.winding, p.src, p.rangeEnd⟩
 
-/-- `process_edges_above`, `edges_to_split`: the current position lies on the active edge. The
-upper part ends here; the lower part is pushed as a pending edge that shares the source record
-(NO new record: `src.t0` still is the parameter of the upper end of the whole edge). -/
-def splitAtVertex (cur : P α) (a : Active α) : Active α × Pending α :=
-  ({ a with to := cur }, ⟨a.to, a.src, a.winding, a.rangeEnd⟩)
-
 /-- `process_intersection`, active edge, general case (`current_position ≠ intersection`): the
 edge is truncated at `ip`; the cut-off part becomes a new record (flipped when `ip` is after
 the edge's lower end). -/
@@ -244,6 +238,16 @@ def solveTForX (a b : P α) (x : α) : α :=
 def splitT (cur dest splitPoint : P α) : α :=
   if abs (dest.y - cur.y) < abs (dest.x - cur.x) then solveTForX cur dest splitPoint.x
   else solveTForY cur dest splitPoint.y
+
+/-- `process_edges_above`, `edges_to_split`: the current position lies on the active edge. The
+upper part ends here; the lower part is pushed as a pending edge with its OWN edge data
+(`push_unlinked`, fix 6bc52f98): a copy of the source record whose `range.start` is the split
+parameter — located along the larger extent of the active edge and remapped into the record's
+range. (Before the fix the lower part shared the source record and kept its stale `range.start`.) -/
+def splitAtVertex (cur : P α) (a : Active α) : Active α × Pending α :=
+  let t := splitT a.from_ a.to cur
+  let src : EdgeRec α := { a.src with pos := cur, t0 := remapT t a.src.t0 a.rangeEnd }
+  ({ a with to := cur }, ⟨a.to, src, a.winding, a.rangeEnd⟩)
 
 /-- `merge_coincident_edges` (`split = true`): the longer of two coincident pending edges is
 removed and its part beyond the shorter one's end `splitPoint` becomes a new record. -/
